@@ -151,6 +151,17 @@ extern "C" void c15_store_load()
   const char* ps = nullptr;
   verif_assert(ok == bloc_true && bloc_literal(bloc_ctx_load_variable(ctx, s), &ps) == bloc_true && ps != nullptr && ps[0] == txt[0], "C15: a string stored through the API is read back as that string");
   bloc_free_value(sv);
+  /* a symbol registered with a type has exactly that type (major and number of dimensions) before anything is stored in it */
+  int nd = in_int(1); verif_assume(nd >= 0 && nd <= 3);
+  bloc_type tt = { LITERAL, (unsigned char)nd };
+  bloc_symbol* s2 = bloc_ctx_register_symbol(ctx, "T", tt);
+  verif_assert(s2 != nullptr, "C15: registering a new symbol with a table type succeeds");
+  if (s2 != nullptr) {
+    bloc_type got = bloc_value_type(bloc_ctx_load_variable(ctx, s2));
+    verif_assert(got.major == LITERAL && got.ndim == nd, "C15: a symbol registered through the API has the requested type, major and number of dimensions");
+    Symbol* sym = reinterpret_cast<Symbol*>(s2);
+    verif_assert(sym->major() == Type::LITERAL && sym->level() == (unsigned)nd && sym->minor() == 0, "C15/C02: the registered symbol carries the requested type for the next compilation");
+  }
 }
 extern "C" void c15_items()
 {
